@@ -152,7 +152,8 @@ package geometry
 //@ spec func bsNseg(s *baseSeries) int {
 //@     ite(s.closed, ite(len(s.points) < 3, 0, ite(s.points[len(s.points)-1] == s.points[0], len(s.points)-1, len(s.points))),
 //@                   ite(len(s.points) < 2, 0, len(s.points)-1)) }
-//@ spec func bsSeg(s *baseSeries, i int) Segment { mkSegment(s.points[i], ite(i == len(s.points)-1, s.points[0], s.points[i+1])) }
+//@ spec func ptAt(ps []Point, i int) Point opaque { ps[i] }
+//@ spec func bsSeg(s *baseSeries, i int) Segment { mkSegment(ptAt(s.points,i), ite(i == len(s.points)-1, ptAt(s.points,0), ptAt(s.points,i+1))) }
 //@ spec func segRect(g Segment) Rect { mkRect(mkPoint(min(g.A.X,g.B.X), min(g.A.Y,g.B.Y)), mkPoint(max(g.A.X,g.B.X), max(g.A.Y,g.B.Y))) }
 //@ spec func rectsMeet(a Rect, b Rect) bool { !(a.Min.Y > b.Max.Y || a.Max.Y < b.Min.Y || a.Min.X > b.Max.X || a.Max.X < b.Min.X) }
 //@ spec func rectPt(r Rect, i int) Point { ite(i == 1, mkPoint(r.Max.X, r.Min.Y), ite(i == 2, mkPoint(r.Max.X, r.Max.Y), ite(i == 3, mkPoint(r.Min.X, r.Max.Y), mkPoint(r.Min.X, r.Min.Y)))) }
@@ -261,7 +262,7 @@ package geometry
 
 //@ spec func isBS(s Series) bool { s != nil && dyn(s) == typeid(*baseSeries) }
 //@ spec func isRectS(s Series) bool { s != nil && dyn(s) == typeid(Rect) }
-//@ spec func bsPt(s *baseSeries, i int) Point { s.points[i] }
+//@ spec func bsPt(s *baseSeries, i int) Point { ptAt(s.points, i) }
 //@ spec func bsRectOf(s *baseSeries) Rect { s.rect }
 //@ spec func bsClosed(s *baseSeries) bool { s.closed }
 //@ spec func bsConvex(s *baseSeries) bool { s.convex }
@@ -557,3 +558,58 @@ package geometry
 //@   props C01 C02
 //@   requires poly != nil ==> PolyInv(poly)
 //@   ensures result == (poly != nil && polyHas(poly, point))
+
+// ---------------------------------------------------------------- constructors: makeSeries / newRing / NewLine / NewPoly establish the invariants
+
+//@ spec func ptsInDom(ps []Point) bool { forall i int :: 0 <= i && i < len(ps) ==> inDom(ptAt(ps,i)) }
+//@ spec func samePts(a []Point, b []Point) bool { len(a) == len(b) && (forall i int :: 0 <= i && i < len(a) ==> ptAt(a,i) == ptAt(b,i)) }
+//@ spec func degenerate(ps []Point, closed bool) bool { (closed && len(ps) < 3) || len(ps) < 2 }
+
+//@ func baseSeries.buildIndex
+//@   props C04
+//@   trusted the builders of the compressed indexes are outside the deductive subset; validated by the bounded index suite (govrac index)
+//@   requires series != nil
+//@   modifies baseSeries.index
+//@   ensures IndexInv(series)
+//@   ensures forall r *baseSeries :: r != series ==> r.index == old(r.index)
+
+// package-level variables keep the values their initialisers give them (no store to a global inside the module: C16)
+//@ axiom globalsInit()
+//@   ensures DefaultIndexOptions != nil
+
+//@ func makeSeries
+//@   props C18 C11 C04 C01
+//@   entry use globalsInit()
+//@   requires ExactSums: forall k int :: 0 <= k && k < len(points) ==> abs(trapCode(points,k) + trapTerm(points,k)) < pow53()
+//@   ensures Closed: result.closed == closed
+//@   ensures Points: samePts(result.points, points)
+//@   ensures Convex: closed && len(points) >= 3 ==> result.convex == !(hasNegP(points, ringM(points), ringM(points)) && hasPosP(points, ringM(points), ringM(points)))
+//@   ensures Clockwise: closed && len(points) >= 3 ==> result.clockwise == (trapP(points, ringM(points), ringM(points)) > 0)
+//@   ensures Rect: !degenerate(points, closed) ==> result.rect == bboxOf(points, len(points))
+//@   ensures RectEmpty: degenerate(points, closed) ==> result.rect == mkRect(mkPoint(0,0), mkPoint(0,0))
+//@   ensures Index: IndexInv(result)
+//@   ensures Fresh: result != nil && !old($alloc)[result]
+
+// the running bounding box covers every point processed so far
+//@ lemma bboxCovers(ps []Point, k int, j int)
+//@   props C11 C01
+//@   requires 0 <= j && j < k && k <= len(ps)
+//@   ensures rectHas(bboxOf(ps,k), ptAt(ps,j))
+//@   induction k
+
+//@ func newRing
+//@   props C18 C11 C01
+//@   entry use globalsInit()
+//@   requires ExactSums: forall k int :: 0 <= k && k < len(points) ==> abs(trapCode(points,k) + trapTerm(points,k)) < pow53()
+//@   requires ptsInDom(points)
+//@   ensures Inv: RingInv(result)
+//@   ensures Model: isBS(result) && sNpts(result) == len(points) && (forall i int :: 0 <= i && i < len(points) ==> sPt(result, i) == ptAt(points, i))
+//@   ensures Convex: len(points) >= 3 ==> sConvex(result) == !(hasNegP(points, ringM(points), ringM(points)) && hasPosP(points, ringM(points), ringM(points)))
+//@   ensures Clockwise: len(points) >= 3 ==> sClockwise(result) == (trapP(points, ringM(points), ringM(points)) > 0)
+//@   ensures Rect: len(points) >= 3 ==> sRect(result) == bboxOf(points, len(points))
+//@   ret use forall j int :: bboxCovers(points, len(points), j)
+//@   ret have Series: SeriesInv(result) && sClosed(result) && isBS(result)
+//@   ret have Ends: forall j int :: 0 <= j && j < sNseg(result) ==> (sSeg(result,j).A == ptAt(points,j) && sSeg(result,j).B == ptAt(points, ite(j == len(points)-1, 0, j+1)))
+//@   ret have DomBody: forall j int :: 0 <= j && j < sNseg(result) ==> inDom(sSeg(result,j).A) && inDom(sSeg(result,j).B)
+//@   ret have Dom: seriesInDomSeg(result)
+//@   ret have Cover: forall j int :: 0 <= j && j < sNseg(result) ==> (rectHas(sRect(result), sSeg(result,j).A) && rectHas(sRect(result), sSeg(result,j).B))
